@@ -6,6 +6,9 @@ import (
 	"fmt"
 	"math/rand"
 	"net"
+	"os"
+	"os/exec"
+	"path/filepath"
 	"reflect"
 	"runtime/debug"
 	"sort"
@@ -135,6 +138,9 @@ func (c02) Gen(rng *rand.Rand, tier string) []Case {
 			default:
 				ops = append(ops, fmt.Sprintf("conc:%d,%d", p, 2+rng.Intn(6)))
 			}
+		}
+		if i%30 == 0 { // support run under the race detector (a separate -race binary)
+			ops = append(ops, fmt.Sprintf("race:%d,%d", rng.Intn(np), 2+rng.Intn(3)))
 		}
 		out = append(out, Case{Prop: "C02", Ops: ops})
 	}
@@ -394,6 +400,26 @@ func (c02) Run(c Case) Result {
 				_ = p.String()
 			}
 			res.Obs = append(res.Obs, "ok")
+		case "race":
+			i, _ := strconv.Atoi(args[0])
+			in := ins[i]
+			exe := filepath.Join(filepath.Dir(os.Args[0]), "racecheck")
+			races := 0
+			if _, err := os.Stat(exe); err == nil {
+				cmd := exec.Command(exe, in.first, hex.EncodeToString(in.orig), args[1])
+				cmd.Env = append(os.Environ(), "GORACE=exitcode=66")
+				out, _ := cmd.CombinedOutput()
+				races = strings.Count(string(out), "WARNING: DATA RACE")
+				if races > 0 {
+					first := string(out)
+					if k := strings.Index(first, "Previous"); k > 0 {
+						first = first[:k]
+					}
+					res.Oracle = append(res.Oracle, fmt.Sprintf("no-data-race\t%s: the race detector reports %d race(s) between concurrent readers/decoders of one eager packet: %s", op, races, strings.Join(strings.Fields(first), " ")))
+				}
+				tags["race-detector"] = true
+			}
+			res.Obs = append(res.Obs, fmt.Sprintf("races=%d", b2i(races > 0)))
 		case "conc":
 			i, _ := strconv.Atoi(args[0])
 			g, _ := strconv.Atoi(args[1])
